@@ -84,12 +84,12 @@ mutual
         exact ⟨findList?_of_mem hn'.2 hk, by unfold parentBelow; exact parentKids_of_mem p hn'.2 hk⟩
       · simp only [hh, if_false]
         intro e hk
-        have := findList?_kid p h ks t' k hn'.2 e hk
+        have := fa_findList?_kid p h ks t' k hn'.2 e hk
         have hkm : k.handle ∈ handlesList ks := findList?_some_mem this.1
         have hne : h ≠ k.handle := fun e => hn'.1 (e ▸ hkm)
         simp only [hne, if_false]
         exact ⟨this.1, by unfold parentBelow; exact this.2⟩
-  theorem findList?_kid (p q : Nat) : ∀ (ks : List HTree) (t' k : HTree), (handlesList ks).Nodup →
+  theorem fa_findList?_kid (p q : Nat) : ∀ (ks : List HTree) (t' k : HTree), (handlesList ks).Nodup →
       findList? p ks = some t' → k ∈ t'.kids →
       findList? k.handle ks = some k ∧ parentKids k.handle q ks = some p
     | [], t', k => by simp [findList?]
@@ -115,7 +115,7 @@ mutual
         simp [hne, this.2]
       | none =>
         simp only; intro e hk
-        have := findList?_kid p q ks t' k hna.2.1 e hk
+        have := fa_findList?_kid p q ks t' k hna.2.1 e hk
         have hkm : k.handle ∈ handlesList ks := findList?_some_mem this.1
         have hnk : k.handle ∉ handles a := fun h' => hna.2.2 _ h' _ hkm rfl
         rw [(find?_none_iff _ _).2 hnk]
